@@ -190,8 +190,10 @@ def corpus_cases():
     return out
 
 
-def corpus_shard(ctx, shard_no, acc):
+def corpus_shard(ctx, shard_no, acc, monitors_fn=None, per_shard=3,
+                 nontrivial_fn=None):
     """Replay corpus queue shapes on real Bert-E + real git."""
+    monitors_fn = monitors_fn or monitors
     from vf.cli import jhash
     from vf.sim.driver import History
     from vf.sim.explore import ddmin
@@ -201,7 +203,7 @@ def corpus_shard(ctx, shard_no, acc):
         n = ctx['nproc']
         start = (ctx['seed'] * 7) % max(1, len(cases))
         cases = [cases[(start + shard_no + k * n) % len(cases)]
-                 for k in range(3)] if cases else []
+                 for k in range(per_shard)] if cases else []
     else:
         cases = cases[shard_no::ctx['nproc']]
     sc = Scratch()
@@ -212,7 +214,7 @@ def corpus_shard(ctx, shard_no, acc):
                       'settings': {
                           'always_create_integration_pull_requests': False,
                           'required_peer_approvals': 1}}
-            hist = History(sc, params, monitors())
+            hist = History(sc, params, monitors_fn())
             try:
                 for i, dst in enumerate(c['prs']):
                     hist.apply({'op': 'open_pr', 'dst': dst, 'author': AUTHOR,
@@ -238,7 +240,8 @@ def corpus_shard(ctx, shard_no, acc):
                 if qs:
                     hist.apply({'op': 'commit_event',
                                 'sel': {'ref': qs[-1]}})
-                acc.case(jhash(c), 'c03_nontrivial' in hist.flags,
+                acc.case(jhash(c), nontrivial_fn(hist) if nontrivial_fn
+                         else 'c03_nontrivial' in hist.flags,
                          sample={'corpus_case': c,
                                  'job_statuses': hist.job_statuses},
                          classes=['corpus_replayed_on_real_git'])
